@@ -149,6 +149,51 @@ Proof.
   intros Hrun Hc. destruct (lrun_LInv es _ _ LInv_init Hrun) as (_ & H2 & H3 & _). auto.
 Qed.
 
+(* ... and once a Stop call has returned, the cleaner does no work ever again: in every
+   continuation of the schedule no tick is taken and no cleanup pass starts or finishes (the pass
+   runs on the cleaner goroutine, which has exited for good). *)
+Definition cleaner_work (e : lev) : bool :=
+  match e with LTick | LCleanupDone => true | _ => false end.
+
+Lemma exited_absorbing s e s' :
+  lstep s e = Some s' -> lcleaner s = PExited -> lcleaner s' = PExited /\ cleaner_work e = false.
+Proof.
+  intros Hs Hc. destruct e; cbn [lstep] in Hs; rewrite ?Hc in Hs; try discriminate; cbn [cleaner_work].
+  - inversion Hs. cbn [lcleaner]. auto.
+  - destruct (nth_error (lcallers s) i) as [[]|]; try discriminate. inversion Hs. cbn [lcleaner]. auto.
+  - destruct (nth_error (lcallers s) i) as [[]|]; try discriminate. inversion Hs. cbn [lcleaner]. auto.
+  - destruct (nth_error (lcallers s) i) as [[]|]; try discriminate.
+    destruct (lrunningch s); [|discriminate]. inversion Hs. cbn [lcleaner]. auto.
+Qed.
+
+Lemma exited_quiet es : forall s s',
+  lcleaner s = PExited -> lrun s es = Some s' ->
+  lcleaner s' = PExited /\ forallb (fun e => negb (cleaner_work e)) es = true.
+Proof.
+  induction es as [|e t IH]; intros s s' Hc Hrun; cbn [lrun] in Hrun.
+  - inversion Hrun; subst. auto.
+  - destruct (lstep s e) as [s1|] eqn:Hs; [|discriminate].
+    destruct (exited_absorbing _ _ _ Hs Hc) as [Hc1 Hw].
+    destruct (IH _ _ Hc1 Hrun) as [Hc' Hall]. split; [exact Hc'|].
+    cbn [forallb]. rewrite Hw, Hall. reflexivity.
+Qed.
+
+Theorem stop_then_quiet es s i es' s' :
+  lrun linit es = Some s -> nth_error (lcallers s) i = Some SReturned ->
+  lrun s es' = Some s' ->
+  lcleaner s' = PExited /\ forallb (fun e => negb (cleaner_work e)) es' = true.
+Proof.
+  intros Hrun Hi Hrun'. apply (exited_quiet es' s s'); [|exact Hrun'].
+  eapply stop_waits; eassumption.
+Qed.
+
+Example stop_then_quiet_nonvacuous :
+  exists s s', lrun linit [LTick; LStopCall; LStopCas 0; LStopClose 0; LCleanupDone; LSeeStop; LStopReturn 0] = Some s /\
+               nth_error (lcallers s) 0 = Some SReturned /\
+               lrun s [LStopCall; LStopCas 1; LStopReturn 1] = Some s' /\
+               lstep s' LTick = None /\ lstep s' LCleanupDone = None.
+Proof. eexists. eexists. vm_compute. repeat split; reflexivity. Qed.
+
 Example stop_waits_nonvacuous :
   exists s, lrun linit [LTick; LStopCall; LStopCall; LStopCas 1; LStopCas 0; LCleanupDone;
                         LStopClose 1; LSeeStop; LStopReturn 0; LStopReturn 1] = Some s /\
